@@ -253,8 +253,8 @@ func classOf(v reflect.Value) string {
 		return "chan"
 	case reflect.Slice:
 		switch {
-		case t == bytesT && v.IsNil():
-			return "[]byte:nil"
+		case byteSlice(t) && v.IsNil():
+			return "[]byte:nil" // plain or named: a nil byte slice
 		case t == bytesT:
 			return "[]byte"
 		case t.Elem().Kind() == reflect.Uint8:
@@ -344,6 +344,16 @@ func contentSuffix(s string) string {
 		return ":" + c
 	}
 	return ""
+}
+
+// byteSlice reports whether encoding/json encodes values of t as base64: a
+// slice whose element type is of kind uint8 and has no marshaler of its own.
+func byteSlice(t reflect.Type) bool {
+	if t.Kind() != reflect.Slice || t.Elem().Kind() != reflect.Uint8 {
+		return false
+	}
+	p := reflect.PointerTo(t.Elem())
+	return !p.Implements(reflect.TypeFor[json.Marshaler]()) && !p.Implements(reflect.TypeFor[encoding.TextMarshaler]())
 }
 
 // ptrMarshaler reports whether *t, but not t, implements json.Marshaler or
@@ -762,7 +772,7 @@ func expectJS(v reflect.Value) any {
 	case reflect.String:
 		return wStr(v.String())
 	case reflect.Slice:
-		if t == bytesT {
+		if byteSlice(t) { // plain or named, as encoding/json; nil is "" (the renderer's choice, see the assumptions)
 			return wStr(base64.StdEncoding.EncodeToString(v.Bytes()))
 		}
 		if v.IsNil() {
@@ -840,7 +850,12 @@ func expectJS(v reflect.Value) any {
 	return wUndef{} // complex, func, chan, unsafe pointer: not representable
 }
 
-func units(s string) []uint16 { return utf16.Encode(nodejs.DecodeUTF8(s)) }
+// units are the UTF-16 code units of the string the data holds: json.Marshal
+// (the referee of C08) turns every byte that is not UTF-8 into one U+FFFD, as
+// converting to []rune does. (The rendered output itself must be valid UTF-8,
+// which is checked before; how a consumer would decode invalid bytes is C07's
+// question, not this one.)
+func units(s string) []uint16 { return utf16.Encode([]rune(s)) }
 
 func sameUnits(a, b []uint16) bool {
 	if len(a) != len(b) {
@@ -1577,7 +1592,7 @@ func main() {
 		Rule:  "value universe = 101 base values (untyped nil; bools; min/max of every int and uint width, 2^53+1, uintptr; floats 0, -0, 1.5, 1e21, max, smallest denormal, NaN, ±Inf, float32 0.1/max/NaN/-Inf; strings empty, </script><!--<script>, U+2028/9, non-UTF-8, quotes and controls, astral; named string/int/[]byte; nil/empty/non-empty []byte; typed nil pointer/slice/map; time.Time in UTC, +02:00 with milliseconds, -03:30, year 0, year 10000, year -1, zone offset with seconds; error values; trusted native.JS/JSON and JSStringer/JSONStringer; a json.Marshaler; complex, func, chan; maps with <= 3 entries for every key kind: string incl. \"\", __proto__, integer-like and </script> keys, named string, bool, every int/uint width, uintptr, float32/64, complex64/128, a Stringer struct, interface, array) closed under 11 constructors ([]any{x}, []T{x}, []T{zero,x}, [1]T{x}, &x, map[string]any{k:x}, map[string]T{b:x,a:zero}, struct with json tags rename/omitempty/-/untagged/option-only/unexported, struct embedding a struct, struct of nil and non-nil *T fields with and without omitempty, struct of any fields) plus all 36 two-element []any over 6 representatives, to depth 2 (quick) / 3 (thorough); plus, in both tiers, []byte values of 255, 256, 257, 511, 512, 513, 767, 768, 769, 1023, 1024, 1025, 3000 and 5000 bytes with position-dependent content, strings of the same byte lengths with every escaped character spread over them, and a named []byte of 1025 bytes, each alone and inside each of the 11 constructors; each value x {JS in <script>, JS in .js, JSON in .json, JSON in <script type=application/ld+json>} x {global of type any, global of the value's concrete type}. Round 2 spaces (both tiers): (1) struct tags: 34 tags (,string; omitempty in every position of the option list, with string/omitzero/unknown options, alone, and as a NAME; omitzero; the tags -, '-,' and '-,omitempty'; empty names; no json key; unknown and space-padded options; names with punctuation, unicode letters, quotes/backslash/emoji; integer-like name) x 31 field values (an empty and a non-empty value of int, string, bool, float incl. -0, uint8, int64 max, *int, []int nil/empty/non-empty, map nil/empty/non-empty, [0]int, [2]int, struct, an IsZero implementer, time.Time, any) plus 18 structs with embedded struct / *struct (nil and not) with and without tags, shadowed and conflicting promoted names, unexported and non-struct embedded types, duplicate and case-differing names, in .js and .json; (2) 83 unusual strings (every C0 control character, U+007F, U+0080, U+0085, U+00A0, U+2028, U+2029, U+FEFF first and inside, U+FFFD, U+FFFE, U+FFFF, astral, seven kinds of invalid UTF-8 incl. overlong, truncated and WTF-8/CESU-8 surrogates, </script>, </SCRIPT >, <script>, <!--, -->, ]]>, <![CDATA[, entities, quotes, backslash-u, template-literal and comment delimiters, CR LF) x 12 positions (string, named string, map key alone and beside another, map value, []string element, struct fields with and without omitempty, text of errors.New and of a struct error, error in a slice, String() of a map key, any in a struct) in all 4 contexts; (3) numbers: int64/int/named int64 around ±2^53 and at min/max, uint64/uint/uintptr/named at 2^53+1, 2^63, 2^64-1 and neighbours, 30 float64 and 16 float32 values at the limits of the shortest representation (denormals, max, 1e21..1e23, 1e-6/1e-7, 0.1+0.2, -0, 2^24+1 as float32) and their named types, each alone, in a slice, in a struct with omitempty and as map key and value, in .js and .json; (4) named string/bool/int/map/slice/array/struct/time/pointer/any/[]uint16/[2]byte/[][]byte types, the 16 struct types implementing every subset of {json.Marshaler, encoding.TextMarshaler, fmt.Stringer, error}, string- and int-kinded error/Stringer/TextMarshaler types, pointer-receiver marshalers, maps keyed by TextMarshalers, Stringers, named ints/bools and integers, each alone, behind a pointer, as a nil pointer, in a struct and in a slice, in .js and .json; (5) writers: the template [{{ v }},{{ w }}] in the 4 contexts with 8 values of 14 sizes, 8 runs back to back and 8 goroutines x 4 rounds through a blocking writer that reads the slice only after yielding, compared with a copying writer. Non-trivial = the template built and ran, so an oracle judged the output",
 		Assumptions: []string{
 			"JavaScript oracle: /usr/bin/node v20 parses the output both as `[OUT\\n]` (exactly one element) and as `(OUT\\n)`, i.e. as exactly one AssignmentExpression, evaluates it, and the value is compared structurally (numbers by IEEE bits so -0 and NaN count, strings by UTF-16 code units, Date by toISOString, objects by Object.keys order and prototype) with the data model: nil → null; bool; every int/uint/float kind → the nearest float64 (float32 through its shortest decimal form, as encoding/json does); string → string (a non-UTF-8 byte → U+FFFD); error → its message; []byte → base64 string; other slices, arrays → array (nil slice → null); pointer → pointee or null; time.Time → Date of the same instant truncated to milliseconds; map → object whose properties are in ascending key order (integer-like keys first, ascending, as ECMAScript orders own properties), keys being the string / decimal / true|false / String() text; struct → object of the exported fields in field order honouring json tags (name, -, omitempty with encoding/json's notion of empty); complex, func, chan → undefined",
-			"where JavaScript has no standard counterpart the model follows the renderer and does not judge it: an embedded struct is a property named after its type, a named []byte is an array of numbers, a nil []byte is \"\"; map keys of complex kind are only counted (the object must have as many own properties as the map has entries); trusted code (native.JS, JSStringer) is only required to parse and evaluate",
+			"where JavaScript has no standard counterpart the model follows the renderer and does not judge it: an embedded struct is a property named after its type, a nil []byte (plain or named) is \"\"; a named []byte is a base64 string like a plain one, as for encoding/json; map keys of complex kind are only counted (the object must have as many own properties as the map has entries); trusted code (native.JS, JSStringer) is only required to parse and evaluate",
 			"every output must be valid UTF-8 (RFC 8259 §8.1 for JSON; a JavaScript source with other bytes is changed by the decoder before it is parsed); keyed apart from the data comparison, which treats an invalid byte as U+FFFD exactly as encoding/json (JSON) and the WHATWG decoder (JS) do",
 			"integers beyond 2^53: the statement asks JavaScript for the corresponding data, and a double is all JavaScript has, so an exact literal that evaluates to the nearest double is not judged a breach (classed apart: 'an exact integer literal beyond 2^53 evaluates to the nearest double'); but the literal itself must denote the exact Go integer (read back with encoding/json when the output is also JSON), key 'an integer literal does not denote the exact value'. For JSON the rational value of every number must equal encoding/json's",
 			"struct tag space: encoding/json referees the JavaScript context too (which members, under which names, with which values), except that a time.Time is a Date; the key names the tag class, the detail says how the data differ",
